@@ -1,4 +1,4 @@
-/// Override of libc's getrandom (see mc::seed).
+/// Override of libc's getrandom (see mc::seed): std's RandomState keys become harness-chosen.
 #[no_mangle]
 pub extern "C" fn getrandom(buf: *mut u8, len: usize, _flags: u32) -> isize {
     let s = unsafe { std::slice::from_raw_parts_mut(buf, len) };
@@ -7,14 +7,35 @@ pub extern "C" fn getrandom(buf: *mut u8, len: usize, _flags: u32) -> isize {
 }
 
 fn main() {
-    let order = |seed: u64| {
-        mc::seed::set_seed(seed);
-        mc::seed::on_fresh_thread(|| {
-            let mut h = std::collections::HashSet::new();
-            for i in 0..20 { h.insert(format!("k{}", i)); }
-            h.into_iter().collect::<Vec<_>>().join(",")
-        })
-    };
-    let a = order(1); let b = order(1); let c = order(2);
-    println!("{}\n{}\n{}\nsame={} diff={}", a, b, c, a == b, a != c);
+    let args: Vec<String> = std::env::args().collect();
+    if args.len() < 2 {
+        eprintln!("usage: verif <Cxx> [--replay file]");
+        std::process::exit(2);
+    }
+    let id = args[1].as_str();
+    // quiet panic messages from catch_unwind'ed subjects (they are reported by the checks)
+    if std::env::var("VERIF_PANIC_TRACE").is_err() {
+        std::panic::set_hook(Box::new(|_| {}));
+    }
+    if args.len() >= 4 && args[2] == "--replay" {
+        let v: serde_json::Value =
+            serde_json::from_str(&std::fs::read_to_string(&args[3]).expect("replay file")).expect("json");
+        match id {
+            "C01" => mc::checks::c01::replay(&v["case"]),
+            _ => {
+                eprintln!("no replay for {}", id);
+                std::process::exit(2)
+            }
+        }
+        return;
+    }
+    let rep = mc::report::Report::new(id);
+    match id {
+        "C01" => mc::checks::c01::run(&rep),
+        _ => {
+            eprintln!("unknown check {}", id);
+            std::process::exit(2)
+        }
+    }
+    std::process::exit(rep.finish());
 }
